@@ -408,7 +408,12 @@ def _users(ctx, d, pgpy):
     t0 = datetime(2021, 1, 1, tzinfo=timezone.utc)
     k.add_uid(pgpy.PGPUID.new('Certify Only', email='c@example.org'), usage={KeyFlags.Certify}, created=t0, primary=True)
     k.add_uid(pgpy.PGPUID.new('Signer Too', email='s@example.org'), usage={KeyFlags.Certify, KeyFlags.Sign}, created=t0 + timedelta(days=1))
-    for user, can in (('Certify Only', False), ('Signer Too', True), ('s@example.org', True), ('c@example.org', False)):
+    # identities whose names / addresses / comments contain one another: only an exact match of a whole field names an identity
+    k.add_uid(pgpy.PGPUID.new('Anne', comment='not Ann, not ann@x.example', email='joann@x.example'), usage={KeyFlags.Certify, KeyFlags.Sign}, created=t0 + timedelta(days=2))
+    k.add_uid(pgpy.PGPUID.new('Ann', comment='not Anne', email='ann@x.example'), usage={KeyFlags.Certify}, created=t0 + timedelta(days=3))
+    k.add_uid(pgpy.PGPUID.new('Annette Anne Ann', comment='Signer Too (no)', email='s@example.org.invalid'), usage={KeyFlags.Certify}, created=t0 + timedelta(days=4))
+    for user, can in (('Certify Only', False), ('Signer Too', True), ('s@example.org', True), ('c@example.org', False),
+                      ('Ann', False), ('Anne', True), ('ann@x.example', False), ('joann@x.example', True), ('not Anne', False), ('Annette Anne Ann', False)):
         ctx.count('cells')
         ctx.count('evaluations')
         try:
